@@ -624,10 +624,13 @@ class Executor:
 
     def static_ref(self, name):
         cache = self.env.setdefault('statics', {})
+        if '__CALLSITE' in name or name.endswith('::META'):
+            return Opaque('static ' + name)
         if name not in cache:
             full = self._lookup_item(name)
             if full is None:
                 return Opaque('static ' + name)
+            cache[name] = [Opaque('static %s (being initialised)' % name)]      # self-referential statics
             cache[name] = [self.call_fn(full, [])]
         return Ref(cache[name], 0)
 
